@@ -307,7 +307,8 @@ class MindsDBLexer(Lexer):
     TRUE = r'\bTRUE\b'
     FALSE = r'\bFALSE\b'
 
-    @_(r'(?:([a-zA-Z_$0-9]*[a-zA-Z_$]+[a-zA-Z_$0-9]*)|(?:`([^`]+)`))')
+    # inside back-quotes a doubled back-quote stands for one back-quote (decoded by path_str_to_parts)
+    @_(r'(?:([a-zA-Z_$0-9]*[a-zA-Z_$]+[a-zA-Z_$0-9]*)|(?:`((?:[^`]|``)+)`))')
     def ID(self, t):
         return t
 
@@ -326,7 +327,7 @@ class MindsDBLexer(Lexer):
         t.value = "'" + self.unescape_string(t.value[1:-1], quote="'") + "'"
         return t
 
-    @_(r'"(?:\\.|[^"\\]|\\(?=\\*"|\n))*"')
+    @_(r'"(?:\\.|[^"\\]|\\(?=\\*"|\n))*(?:""(?:\\.|[^"\\]|\\(?=\\*"|\n))*)*"')
     def DQUOTE_STRING(self, t):
         t.value = '"' + self.unescape_string(t.value[1:-1], quote='"') + '"'
         return t
@@ -336,14 +337,15 @@ class MindsDBLexer(Lexer):
         # text: content of the literal, without the surrounding quotes
         # it is read once, from left to right: a backslash always pairs with the next character
         def decode(m):
-            if m.group(0) == "''":
-                return "'"
+            if m.group(0) in ("''", '""'):
+                # doubled delimiter
+                return quote
             if m.group(1) in ('"', "'", '\\'):
                 return m.group(1)
             # not an escape sequence, keep as is
             return m.group(0)
 
-        pattern = r"\\(.)|''" if quote == "'" else r"\\(.)"
+        pattern = r"\\(.)|''" if quote == "'" else r'\\(.)|""'
         return re.sub(pattern, decode, text)
 
     @_(r'\n+')
